@@ -153,3 +153,37 @@ def rest_api():
     fb.method(s, "ReservedVar", "GetRequest", "Book", http=("get", "/v1/{class=things/*}"))
     fb.method(s, "NoHttp", "NoHttpRequest", "Book")
     return [fb]
+
+
+def retry_api():
+    fb = gen.FileBuilder("google/example/rt/v1/library.proto", "google.example.rt.v1")
+    fb.message("Book", [("name", "string")])
+    fb.message("Req", [("name", "string")])
+    s = fb.service("Library")
+    for m in ("GetBook", "GetBookCover", "DeleteBook", "ListShelves", "Import"):
+        fb.method(s, m, "Req", "Book", http=("get", "/v1/{name=books/*}:" + m.lower()))
+    s2 = fb.service("Other")
+    fb.method(s2, "GetBook", "Req", "Book", http=("get", "/v1/{name=others/*}"))
+    return [fb]
+
+
+RETRY_CONFIGS = [
+    {"methodConfig": [
+        {"name": [{"service": "google.example.rt.v1.Library", "method": "GetBook"},
+                  {"service": "google.example.rt.v1.Library", "method": "DeleteBook"}],
+         "timeout": "7.5s",
+         "retryPolicy": {"maxAttempts": 4, "initialBackoff": "0.25s", "maxBackoff": "32s", "backoffMultiplier": 1.3,
+                         "retryableStatusCodes": ["UNAVAILABLE", "DEADLINE_EXCEEDED"]}},
+        {"name": [{"service": "google.example.rt.v1.Library", "method": "GetBookCover"}], "timeout": "20s"},
+        {"name": [{"service": "google.example.rt.v1.Library", "method": "Import"}],
+         "retryPolicy": {"retryableStatusCodes": ["ABORTED"]}},
+        {"name": [{"service": "google.example.rt.v1.Library"}], "timeout": "99s"},
+    ]},
+    {"methodConfig": [
+        {"name": [{"service": "google.example.rt.v1.Other", "method": "GetBook"}], "timeout": "1500000000n",
+         "retryPolicy": {"initialBackoff": "1s", "maxBackoff": "10s", "backoffMultiplier": 2,
+                         "retryableStatusCodes": ["INTERNAL", "UNAVAILABLE", "ABORTED"]}},
+        {"name": [{"service": "google.example.rt.v1.Library", "method": "GetBook"}], "timeout": "3s"},
+        {"name": [{"service": "google.example.rt.v1.Library", "method": "GetBook"}], "timeout": "4s"},
+    ]},
+]
